@@ -315,3 +315,620 @@ Proof.
     + assert (ids (c_ents c') = ids (c_ents c)) by (unfold c'; cbn [c_ents]; apply ids_set_sp). specialize (HK H0). lia.
     + intros z Hb. unfold bound in *. unfold sync_park. pcbn. rewrite Hp in Hb. cbn [ph_eqb andb orb] in *. rewrite orb_false_r in *. exact Hb.
 Qed.
+
+(* ================= steps that change the coordinator's state ================= *)
+Lemma gen_le_of : forall c m, m_live m = true -> coh c m = true -> m_gen m <= c_gen c.
+Proof.
+  intros c m L C. unfold coh, coh_a, absm in C. pcbn_in C. rewrite L in C. cbn [negb orb] in C.
+  apply andb_true_iff in C. destruct C as [_ C]. apply Nat.leb_le. exact C.
+Qed.
+Lemma rgen_le_of : forall c m, m_live m = true -> wf_m c m = true -> coh c m = true -> rgen_of m <= c_gen c.
+Proof.
+  intros c m L W C. unfold rgen_of. destruct (m_inbox m) as [[code g|code]|] eqn:I; try lia.
+  unfold coh, coh_a, wf_m, wf_a, absm in *. pcbn_in C. pcbn_in W. rewrite L in C, W. cbn [negb orb] in C, W.
+  unfold ib_of, rgen_of in *. rewrite I in C, W.
+  destruct (Z.eqb_spec code 0) as [->|Hn].
+  - apply andb_true_iff in C. destruct C as [C _]. apply andb_true_iff in C. destruct C as [C _].
+    apply andb_true_iff in C. destruct C as [_ C]. apply andb_true_iff in C. destruct C as [C _]. apply Nat.leb_le. exact C.
+  - repeat (apply andb_true_iff in W; destruct W as [W ?]).
+    destruct (m_ph m); try discriminate.
+    repeat (apply andb_true_iff in W; destruct W as [W ?]).
+    destruct (code =? 0)%Z eqn:E; [apply Z.eqb_eq in E; contradiction|]. cbn [orb] in *.
+    match goal with H : (g =? 0) = true |- _ => apply Nat.eqb_eq in H; lia end.
+Qed.
+
+Lemma all_joined_flag : forall es x, all_joined es = true -> memb x (ids es) = true -> flag_of e_jp x es = true.
+Proof.
+  intros es x Ha Hm. unfold flag_of. destruct (find_ent x es) as [e|] eqn:F.
+  - unfold find_ent in F. apply find_some in F. destruct F as [Hin _]. unfold all_joined in Ha. rewrite forallb_forall in Ha. apply Ha. exact Hin.
+  - exfalso. apply memb_In in Hm. unfold ids in Hm. apply in_map_iff in Hm. destruct Hm as [e [Ee Hin]].
+    unfold find_ent in F. apply (find_none _ _ F) in Hin. rewrite Ee, Nat.eqb_refl in Hin. discriminate.
+Qed.
+
+Lemma inv_a_split : forall a, inv_a a = true -> wf_a a = true /\ coh_a a = true.
+Proof. intros a H. unfold inv_a in H. apply andb_true_iff in H. exact H. Qed.
+Lemma keeps_parts : forall a a', keeps a a' = true -> a_live a' = true /\ wf_a a' = true /\ coh_a a' = true /\ tw_a a' <= tw_a a.
+Proof.
+  intros a a' H. unfold keeps in H. apply andb_true_iff in H; destruct H as [H H3]. apply andb_true_iff in H; destruct H as [H1 H2].
+  destruct (inv_a_split _ H2) as [A B]. apply Nat.leb_le in H3. repeat split; assumption.
+Qed.
+
+(* any live member across _complete_join *)
+Lemma member_barrier : forall cP c3 mP, wf_cw cP -> c_st cP = CPreparing -> all_joined (c_ents cP) = true ->
+  c_st c3 = CCompleting -> c_gen c3 = S (c_gen cP) -> c_pend c3 = c_pend cP -> c_ents c3 = clear_jp (c_ents cP) ->
+  m_live mP = true -> wf_m cP mP = true -> coh cP mP = true ->
+  let m3 := bcast [EvJoinDone (S (c_gen cP))] mP in
+  m_live m3 = true /\ wf_m c3 m3 = true /\ coh c3 m3 = true /\ tw c3 m3 <= tw cP mP.
+Proof.
+  intros cP c3 mP W Hst Haj H1 H2 H3 H4 L Wm Cm m3.
+  assert (EA : absm c3 m3 = T_barrier (absm cP mP)).
+  { apply absm_T_barrier; try assumption; [apply gen_le_of; assumption | apply rgen_le_of; assumption]. }
+  pose proof (use_check_w pre_any chk_T_barrier cP mP ok_T_barrier W L Wm (wf_pre_m _ _ L Wm)) as H.
+  unfold chk_T_barrier in H.
+  assert (E1 : inv_a (absm cP mP) = true) by (unfold inv_a; fold (wf_m cP mP) (coh cP mP); rewrite Wm, Cm; reflexivity).
+  assert (E2 : cstate_eqb (a_st (absm cP mP)) CPreparing = true) by (unfold absm; pcbn; rewrite Hst; reflexivity).
+  assert (E3 : negb (a_id_e (absm cP mP)) || a_id_jp (absm cP mP) = true).
+  { unfold absm. pcbn. destruct (memb (m_id mP) (ids (c_ents cP))) eqn:E; [|reflexivity]. cbn [negb orb].
+    exact (all_joined_flag _ _ Haj E). }
+  assert (E4 : negb (a_f_e (absm cP mP)) || a_f_jp (absm cP mP) = true).
+  { unfold absm. pcbn. destruct (memb (focus_of mP) (ids (c_ents cP))) eqn:E; [|reflexivity]. cbn [negb orb].
+    exact (all_joined_flag _ _ Haj E). }
+  rewrite E1, E2, E3, E4 in H. cbn [negb andb orb] in H. rewrite <- EA in H.
+  destruct (keeps_parts _ _ H) as (A & B & C & D). repeat split; assumption.
+Qed.
+
+(* any live member across _prepare_rebalance; [c]: the coordinator before the request, whose table the member sees
+   unchanged in the intermediate coordinator *)
+Lemma member_prepare : forall c c2 m0, wf_c c = true -> c_st c <> CPreparing ->
+  m_live m0 = true -> wf_m c m0 = true -> coh c m0 = true ->
+  absm c2 (bcast [EvPrepare] m0) = T_prep (absm c m0) ->
+  let m2 := bcast [EvPrepare] m0 in
+  m_live m2 = true /\ wf_m c2 m2 = true /\ coh c2 m2 = true /\ tw c2 m2 <= tw c m0.
+Proof.
+  intros c c2 m0 Hc Hst L Wm Cm EA m2.
+  pose proof (use_check pre_any chk_T_prep c m0 ok_T_prep Hc L Wm (wf_pre_m _ _ L Wm)) as H.
+  unfold chk_T_prep in H.
+  assert (E1 : inv_a (absm c m0) = true) by (unfold inv_a; fold (wf_m c m0) (coh c m0); rewrite Wm, Cm; reflexivity).
+  assert (E2 : cstate_eqb (a_st (absm c m0)) CPreparing = false) by (unfold absm; pcbn; destruct (c_st c); try reflexivity; congruence).
+  rewrite E1, E2 in H. cbn [negb andb orb] in H. rewrite <- EA in H.
+  destruct (keeps_parts _ _ H) as (A & B & C & D). repeat split; assumption.
+Qed.
+
+Lemma bcast_dead : forall evs c m0, m_live m0 = false ->
+  wf_m c (bcast evs m0) = true /\ coh c (bcast evs m0) = true /\ tw c (bcast evs m0) = 0.
+Proof.
+  intros evs c m0 L. destruct (bcast_fields evs m0) as (A & _). rewrite <- A in L.
+  destruct (dead_trivial c (bcast evs m0) L) as (W & C & T & _). repeat split; assumption.
+Qed.
+
+Definition c2_of (c : coord) (x : nat) : coord :=
+  mkC (c_gen c) CPreparing (clear_sp (ents1 (c_ents c) x)) (remove_id x (c_pend c)) (c_leader c).
+
+Lemma joiner_pre : forall c ms m y, inv_a (absm c m) = true -> ck_stale (m_ck m) = false -> join_accepts c ms m y ->
+  join_ok_pre (absm c m) = true.
+Proof.
+  intros c ms m y Hia Hns Ha. unfold join_ok_pre. rewrite Hia. assert (E1 : ck_stale (a_ck (absm c m)) = false) by exact Hns. rewrite E1.
+  cbn [negb andb]. unfold absm. pcbn. destruct Ha as [[E _]|[_ [E|E]]]; [rewrite E; reflexivity | rewrite E; apply orb_true_iff; left; apply orb_true_r | rewrite E; apply orb_true_r].
+Qed.
+
+(* the requester and everybody else after a JoinGroup that starts a rebalance (before a possible _complete_join) *)
+Lemma join_prepare_members : forall c ms i m y, inv_facts c ms -> getm i ms = Some m -> m_live m = true ->
+  m_ph m = PIdle -> m_inbox m = None -> m_cmin m = None -> m_rejoin m = true -> ck_known (m_ck m) = true -> ck_stale (m_ck m) = false ->
+  join_accepts c ms m y -> c_st c <> CPreparing ->
+  let x := join_target m y in
+  (memb x (ids (c_ents c)) = false \/ c_st c = CStable) ->
+  let F := join_out (Parked x) in
+  let g := fun m0 => bcast [EvPrepare] (if m_name m0 =? i then F m0 else m0) in
+  (forall m0, In m0 ms -> m_live (g m0) = m_live m0 /\ wf_m (c2_of c x) (g m0) = true /\ coh (c2_of c x) (g m0) = true)
+  /\ sum (map (tw (c2_of c x)) (map g ms)) + 1 <= sum (map (tw c) ms).
+Proof.
+  intros c ms i m y Hinv G L Hp Hib Hcm Hrj Hk Hns Ha Hst x Htr F g. get_facts Hinv G.
+  pose proof (target_nz c ms m y Hwc Ha) as Hx. fold x in Hx.
+  destruct (target_cases c ms i m y Hinv G L Hp Ha) as (Hoth & _). fold x in Hoth.
+  assert (Hc12 : forall m1, absm (c2_of c x) (bcast [EvPrepare] m1) = T_prep (absm (c1_of c x) m1)).
+  { intros m1. apply absm_T_prep; reflexivity. }
+  (* the requester *)
+  assert (Hown : m_live (g m) = true /\ wf_m (c2_of c x) (g m) = true /\ coh (c2_of c x) (g m) = true /\ tw (c2_of c x) (g m) + 1 <= tw c m).
+  { unfold g. rewrite Hnm, Nat.eqb_refl.
+    pose proof (use_check pre_sendjoin chk_join_trigger c m ok_join_trigger Hwc L Hwm (sendjoin_pre c m L Hwm Hp Hib Hcm Hk Hrj)) as H.
+    unfold chk_join_trigger in H. rewrite (joiner_pre c ms m y Hia Hns Ha) in H.
+    assert (E2 : cstate_eqb (a_st (absm c m)) CPreparing = false) by (unfold absm; pcbn; destruct (c_st c); try reflexivity; congruence).
+    assert (E3 : negb (a_id_e (absm c m)) || cstate_eqb (a_st (absm c m)) CStable = true).
+    { unfold absm. pcbn. destruct Htr as [E|E].
+      - assert (Em : memb (m_id m) (ids (c_ents c)) = false).
+        { unfold x, join_target in E. destruct (Nat.eqb_spec (m_id m) 0) as [Ez|Ez]; [rewrite Ez; exact (wc_0e c (wf_c_parts c Hwc)) | exact E]. }
+        rewrite Em. reflexivity.
+      - rewrite E. apply orb_true_r. }
+    rewrite E2, E3 in H. cbn [negb andb orb] in H.
+    rewrite <- (absm_join_parked c ms m y Hwc Ha Hp Hib) in H. fold x in H. rewrite <- Hc12 in H.
+    apply andb_true_iff in H. destruct H as [H1 H2]. destruct (inv_a_split _ H1) as [A B]. apply Nat.leb_le in H2.
+    destruct (bcast_fields [EvPrepare] (F m)) as (Lf & _). split; [rewrite Lf; exact L | repeat split; assumption]. }
+  (* the others *)
+  assert (Hothers : forall m0, In m0 ms -> m_name m0 <> i ->
+            m_live (g m0) = m_live m0 /\ wf_m (c2_of c x) (g m0) = true /\ coh (c2_of c x) (g m0) = true /\ tw (c2_of c x) (g m0) <= tw c m0).
+  { intros m0 H0 Hn0. unfold g. apply Nat.eqb_neq in Hn0. rewrite Hn0. apply Nat.eqb_neq in Hn0.
+    destruct (bcast_fields [EvPrepare] m0) as (Lf & _). destruct (m_live m0) eqn:L0.
+    - assert (EA : absm (c2_of c x) (bcast [EvPrepare] m0) = T_prep (absm c m0)).
+      { rewrite Hc12. f_equal. apply c1_frame; [exact Hwc | exact Hx | exact (Hoth m0 H0 Hn0 L0)]. }
+      destruct (member_prepare c (c2_of c x) m0 Hwc Hst L0 (iv_wfm _ _ Hinv m0 H0) (iv_coh _ _ Hinv m0 H0) EA) as (A & B & C & D).
+      repeat split; assumption.
+    - destruct (bcast_dead [EvPrepare] (c2_of c x) m0 L0) as (A & B & T). rewrite T. repeat split; try assumption. lia. }
+  split.
+  - intros m0 H0. destruct (Nat.eq_dec (m_name m0) i) as [E|E].
+    + rewrite (getm_unique i ms m (iv_names _ _ Hinv) G m0 H0 E). destruct Hown as (A & B & C & _). rewrite A, L. auto.
+    + destruct (Hothers m0 H0 E) as (A & B & C & _). auto.
+  - apply (sum_map_updm (tw c) (tw (c2_of c x)) i g ms m 1 (iv_names _ _ Hinv) G).
+    + intros m0 H0 Hn0. apply (Hothers m0 H0 Hn0).
+    + apply Hown.
+Qed.
+
+Lemma all_barrier : forall cP c3 msP, wf_cw cP -> c_st cP = CPreparing -> all_joined (c_ents cP) = true ->
+  c_st c3 = CCompleting -> c_gen c3 = S (c_gen cP) -> c_pend c3 = c_pend cP -> c_ents c3 = clear_jp (c_ents cP) ->
+  (forall mP, In mP msP -> wf_m cP mP = true /\ coh cP mP = true) ->
+  let g3 := bcast [EvJoinDone (S (c_gen cP))] in
+  (forall mP, In mP msP -> wf_m c3 (g3 mP) = true /\ coh c3 (g3 mP) = true)
+  /\ sum (map (tw c3) (map g3 msP)) <= sum (map (tw cP) msP).
+Proof.
+  intros cP c3 msP W Hst Haj H1 H2 H3 H4 Hall g3.
+  assert (Hm : forall mP, In mP msP -> wf_m c3 (g3 mP) = true /\ coh c3 (g3 mP) = true /\ tw c3 (g3 mP) <= tw cP mP).
+  { intros mP Hin. destruct (Hall mP Hin) as [Wm Cm]. destruct (m_live mP) eqn:L.
+    - destruct (member_barrier cP c3 mP W Hst Haj H1 H2 H3 H4 L Wm Cm) as (_ & A & B & C). auto.
+    - destruct (bcast_dead [EvJoinDone (S (c_gen cP))] c3 mP L) as (A & B & T). unfold g3. rewrite T. repeat split; try assumption. lia. }
+  split.
+  - intros mP Hin. destruct (Hm mP Hin) as (A & B & _). auto.
+  - rewrite map_map. apply sum_map_le. intros mP Hin. apply (Hm mP Hin).
+Qed.
+
+Lemma bcast_app : forall a b m, bcast (a ++ b) m = bcast b (bcast a m).
+Proof. intros a b m. unfold bcast. apply fold_left_app. Qed.
+
+Lemma bcast_bound : forall evs m0 x, bound (bcast evs m0) x = bound m0 x.
+Proof. intros evs m0 x. destruct (bcast_fields evs m0) as (A & B & C & D & _). unfold bound. rewrite A, B, C, D. reflexivity. Qed.
+Lemma bcast_same : forall evs m0, m_live (bcast evs m0) = m_live m0 /\ m_id (bcast evs m0) = m_id m0 /\ m_ph (bcast evs m0) = m_ph m0 /\ m_focus (bcast evs m0) = m_focus m0.
+Proof. intros evs m0. destruct (bcast_fields evs m0) as (A & B & C & D & _). auto. Qed.
+
+Lemma wcw_preparing : forall G es pend ldr, tbl_ok es pend -> forallb (fun e => negb (e_sp e)) es = true -> wf_cw (mkC G CPreparing es pend ldr).
+Proof. intros G es pend ldr (T1 & T2 & T3 & T4) Hs. constructor; cbn [c_st c_ents c_pend c_gen cstate_eqb negb orb]; try assumption; try reflexivity. Qed.
+
+(* common to the three JoinGroup cases that change the coordinator's state: orphans, disjointness *)
+Lemma join_epoch_common : forall c c' ms i m y evs, inv_facts c ms -> getm i ms = Some m -> m_live m = true -> m_ph m = PIdle ->
+  join_accepts c ms m y ->
+  let x := join_target m y in
+  ids (c_ents c') = ids (ents1 (c_ents c) x) ->
+  let F := join_out (Parked x) in
+  let g := fun m0 => bcast evs (if m_name m0 =? i then F m0 else m0) in
+  pairwise disjoint_m (map g ms) = true /\ count_orphans (mkS c' (map g ms)) <= count_orphans (mkS c ms)
+  /\ (forall m0, m_name (g m0) = m_name m0).
+Proof.
+  intros c c' ms i m y evs Hinv G L Hp Ha x Hids F g. destruct (getm_In i ms m G) as [Hin Hnm].
+  destruct (target_cases c ms i m y Hinv G L Hp Ha) as (_ & Hid & Hbx & Hbz). fold x in Hid, Hbx, Hbz.
+  assert (Eg : map g ms = map (bcast evs) (updm i F ms)) by (unfold updm; rewrite map_map; reflexivity).
+  split; [|split].
+  - rewrite Eg. rewrite (pairwise_map_same (bcast evs)); [|apply bcast_same].
+    apply (disj_updm c ms i m F Hinv G L (fun _ => eq_refl) Hid).
+  - assert (Hb : forall m0 z, In m0 ms -> bound m0 z = true -> bound (g m0) z = true).
+    { intros m0 z H0 B. unfold g. rewrite bcast_bound. destruct (Nat.eqb_spec (m_name m0) i) as [E|E]; [|exact B].
+      rewrite (getm_unique i ms m (iv_names _ _ Hinv) G m0 H0 E) in *. apply Hbz. exact B. }
+    rewrite ids_ents1 in Hids. destruct (memb x (ids (c_ents c))) eqn:Ex.
+    + apply (orphans_mono c c' ms g []); [rewrite app_nil_r; exact Hids | intros z [] | exact Hb].
+    + apply (orphans_mono c c' ms g [x]); [exact Hids | | exact Hb]. intros z [<-|[]]. exists m. split; [exact Hin|].
+      unfold g. rewrite bcast_bound, Hnm, Nat.eqb_refl. exact Hbx.
+  - intros m0. unfold g. destruct (bcast_fields evs (if m_name m0 =? i then F m0 else m0)) as (_ & _ & _ & _ & N & _). rewrite N.
+    destruct (m_name m0 =? i); reflexivity.
+Qed.
+
+Definition c3_of (cP : coord) : coord :=
+  mkC (S (c_gen cP)) CCompleting (clear_jp (c_ents cP)) (c_pend cP)
+      (if memb (c_leader cP) (ids (c_ents cP)) then c_leader cP else min_id (c_ents cP)).
+
+Lemma erank_le2 : forall c, erank c <= 2.
+Proof. intros c. unfold erank. destruct (c_st c); lia. Qed.
+
+(* JoinGroup that starts a rebalance, not completed at once *)
+Lemma case_join_prepare : forall c ms i m y, inv_facts c ms -> getm i ms = Some m -> m_live m = true ->
+  m_ph m = PIdle -> m_inbox m = None -> m_cmin m = None -> m_rejoin m = true -> ck_known (m_ck m) = true -> ck_stale (m_ck m) = false ->
+  join_accepts c ms m y -> c_st c <> CPreparing ->
+  let x := join_target m y in
+  (memb x (ids (c_ents c)) = false \/ c_st c = CStable) -> all_joined (ents1 (c_ents c) x) = false ->
+  let g := fun m0 => bcast [EvPrepare] (if m_name m0 =? i then join_out (Parked x) m0 else m0) in
+  inv_facts (c2_of c x) (map g ms) /\ mu (mkS (c2_of c x) (map g ms)) < mu (mkS c ms).
+Proof.
+  intros c ms i m y Hinv G L Hp Hib Hcm Hrj Hk Hns Ha Hst x Htr Hnj g. pose proof (iv_wfc _ _ Hinv) as Hwc.
+  pose proof (target_nz c ms m y Hwc Ha) as Hx. fold x in Hx.
+  destruct (join_prepare_members c ms i m y Hinv G L Hp Hib Hcm Hrj Hk Hns Ha Hst Htr) as [Hall Hsum]. fold x g in Hall, Hsum.
+  destruct (join_epoch_common c (c2_of c x) ms i m y [EvPrepare] Hinv G L Hp Ha) as (Hpw & HK & Hnm).
+  { unfold c2_of. cbn [c_ents]. apply ids_clear_sp. }
+  fold x g in Hpw, HK, Hnm.
+  apply epoch_general; try assumption.
+  - unfold c2_of. apply wfc_prepare; [apply tbl_ents1; [apply tbl_of_wf; apply wf_c_parts; exact Hwc | exact Hx] | apply ents1_nonempty | exact Hnj].
+  - intros m0 H0. destruct (Hall m0 H0) as (_ & A & B). auto.
+  - unfold trig. cbn [s_c s_ms]. pose proof (erank_le2 c). assert (erank (c2_of c x) = 2) by reflexivity. lia.
+Qed.
+
+(* ... completed at once (the requester is the only member) *)
+Lemma case_join_prepare_complete : forall c ms i m y, inv_facts c ms -> getm i ms = Some m -> m_live m = true ->
+  m_ph m = PIdle -> m_inbox m = None -> m_cmin m = None -> m_rejoin m = true -> ck_known (m_ck m) = true -> ck_stale (m_ck m) = false ->
+  join_accepts c ms m y -> c_st c <> CPreparing ->
+  let x := join_target m y in
+  (memb x (ids (c_ents c)) = false \/ c_st c = CStable) -> all_joined (ents1 (c_ents c) x) = true ->
+  let g := fun m0 => bcast ([EvPrepare] ++ [EvJoinDone (S (c_gen c))]) (if m_name m0 =? i then join_out (Parked x) m0 else m0) in
+  inv_facts (c3_of (c2_of c x)) (map g ms) /\ mu (mkS (c3_of (c2_of c x)) (map g ms)) < mu (mkS c ms).
+Proof.
+  intros c ms i m y Hinv G L Hp Hib Hcm Hrj Hk Hns Ha Hst x Htr Haj g. pose proof (iv_wfc _ _ Hinv) as Hwc.
+  pose proof (target_nz c ms m y Hwc Ha) as Hx. fold x in Hx. pose proof (wf_c_parts c Hwc) as W.
+  set (g2 := fun m0 => bcast [EvPrepare] (if m_name m0 =? i then join_out (Parked x) m0 else m0)).
+  destruct (join_prepare_members c ms i m y Hinv G L Hp Hib Hcm Hrj Hk Hns Ha Hst Htr) as [Hall Hsum]. fold x g2 in Hall, Hsum.
+  assert (Htbl : tbl_ok (ents1 (c_ents c) x) (remove_id x (c_pend c))) by (apply tbl_ents1; [apply tbl_of_wf; exact W | exact Hx]).
+  assert (Htbl2 : tbl_ok (clear_sp (ents1 (c_ents c) x)) (remove_id x (c_pend c))).
+  { destruct Htbl as (T1 & T2 & T3 & T4). unfold tbl_ok. rewrite ids_clear_sp. auto. }
+  assert (W2 : wf_cw (c2_of c x)) by (unfold c2_of; apply wcw_preparing; [exact Htbl2 | apply forallb_clear_sp]).
+  assert (Haj2 : all_joined (c_ents (c2_of c x)) = true) by (unfold c2_of; cbn [c_ents]; rewrite all_joined_clear_sp; exact Haj).
+  destruct (all_barrier (c2_of c x) (c3_of (c2_of c x)) (map g2 ms) W2 eq_refl Haj2 eq_refl eq_refl eq_refl eq_refl) as [Hall3 Hsum3].
+  { intros mP HP. apply in_map_iff in HP. destruct HP as [m0 [<- H0]]. destruct (Hall m0 H0) as (_ & A & B). auto. }
+  assert (Eg : forall m0, g m0 = bcast [EvJoinDone (S (c_gen (c2_of c x)))] (g2 m0)).
+  { intros m0. unfold g, g2. rewrite bcast_app. reflexivity. }
+  assert (Emap : map g ms = map (bcast [EvJoinDone (S (c_gen (c2_of c x)))]) (map g2 ms)).
+  { rewrite map_map. apply map_ext. exact Eg. }
+  destruct (join_epoch_common c (c3_of (c2_of c x)) ms i m y ([EvPrepare] ++ [EvJoinDone (S (c_gen c))]) Hinv G L Hp Ha) as (Hpw & HK & Hnm).
+  { unfold c3_of, c2_of. cbn [c_ents]. rewrite ids_clear_jp. apply ids_clear_sp. }
+  fold x g in Hpw, HK, Hnm.
+  apply epoch_general; try assumption.
+  - unfold c3_of. apply wfc_complete; [exact Htbl2 | | apply forallb_clear_sp].
+    unfold c2_of. cbn [c_ents]. pose proof (ents1_nonempty (c_ents c) x). destruct (ents1 (c_ents c) x); [congruence | discriminate].
+  - intros m0 H0. rewrite Eg. apply Hall3. apply in_map. exact H0.
+  - rewrite Emap. unfold trig. cbn [s_c s_ms]. rewrite Emap in HK. assert (erank (c3_of (c2_of c x)) = 1) by reflexivity. lia.
+Qed.
+
+(* JoinGroup of the last missing member in PreparingRebalance *)
+Lemma case_join_complete : forall c ms i m y, inv_facts c ms -> getm i ms = Some m -> m_live m = true ->
+  m_ph m = PIdle -> m_inbox m = None -> m_cmin m = None -> m_rejoin m = true -> ck_known (m_ck m) = true -> ck_stale (m_ck m) = false ->
+  join_accepts c ms m y -> c_st c = CPreparing ->
+  let x := join_target m y in
+  all_joined (ents1 (c_ents c) x) = true ->
+  let g := fun m0 => bcast [EvJoinDone (S (c_gen c))] (if m_name m0 =? i then join_out (Parked x) m0 else m0) in
+  inv_facts (c3_of (c1_of c x)) (map g ms) /\ mu (mkS (c3_of (c1_of c x)) (map g ms)) < mu (mkS c ms).
+Proof.
+  intros c ms i m y Hinv G L Hp Hib Hcm Hrj Hk Hns Ha Hst x Haj g. get_facts Hinv G. pose proof (wf_c_parts c Hwc) as W.
+  pose proof (target_nz c ms m y Hwc Ha) as Hx. fold x in Hx.
+  destruct (target_cases c ms i m y Hinv G L Hp Ha) as (Hoth & _). fold x in Hoth.
+  set (F := join_out (Parked x)).
+  assert (Htbl : tbl_ok (ents1 (c_ents c) x) (remove_id x (c_pend c))) by (apply tbl_ents1; [apply tbl_of_wf; exact W | exact Hx]).
+  assert (Hsp : forallb (fun e => negb (e_sp e)) (ents1 (c_ents c) x) = true).
+  { apply sp_ents1. pose proof (wc_sp c W) as H. rewrite Hst in H. exact H. }
+  assert (W1 : wf_cw (c1_of c x)) by (unfold c1_of; rewrite Hst; apply wcw_preparing; assumption).
+  (* every member in the intermediate coordinator c1 *)
+  pose proof (use_check pre_sendjoin chk_join_parked c m ok_join_parked Hwc L Hwm (sendjoin_pre c m L Hwm Hp Hib Hcm Hk Hrj)) as H.
+  unfold chk_join_parked in H. rewrite (joiner_pre c ms m y Hia Hns Ha) in H.
+  assert (E3 : cstate_eqb (a_st (absm c m)) CPreparing = true) by (unfold absm; pcbn; rewrite Hst; reflexivity).
+  rewrite E3 in H. cbn [negb andb orb] in H. rewrite <- (absm_join_parked c ms m y Hwc Ha Hp Hib) in H. fold x F in H.
+  destruct (good_parts _ _ _ _ H) as (_ & Wown & Cown & Town & _).
+  assert (Hm1 : forall m0, In m0 ms -> let m1 := (if m_name m0 =? i then F m0 else m0) in
+            wf_m (c1_of c x) m1 = true /\ coh (c1_of c x) m1 = true /\ tw (c1_of c x) m1 <= tw c m0).
+  { intros m0 H0. cbv zeta. destruct (Nat.eqb_spec (m_name m0) i) as [E|E].
+    - rewrite (getm_unique i ms m (iv_names _ _ Hinv) G m0 H0 E). repeat split; try assumption. unfold tw. lia.
+    - destruct (m_live m0) eqn:L0.
+      + unfold wf_m, coh, tw. rewrite (c1_frame c x m0 Hwc Hx (Hoth m0 H0 E L0)).
+        repeat split; [apply (iv_wfm _ _ Hinv m0 H0) | apply (iv_coh _ _ Hinv m0 H0) | lia].
+      + destruct (dead_trivial (c1_of c x) m0 L0) as (A & B & T & _). rewrite T. repeat split; try assumption. lia. }
+  assert (Haj1 : all_joined (c_ents (c1_of c x)) = true) by exact Haj.
+  destruct (all_barrier (c1_of c x) (c3_of (c1_of c x)) (updm i F ms) W1 Hst Haj1 eq_refl eq_refl eq_refl eq_refl) as [Hall3 Hsum3].
+  { intros mP HP. unfold updm in HP. apply in_map_iff in HP. destruct HP as [m0 [<- H0]]. destruct (Hm1 m0 H0) as (A & B & _). auto. }
+  assert (Emap : map g ms = map (bcast [EvJoinDone (S (c_gen (c1_of c x)))]) (updm i F ms)).
+  { unfold updm. rewrite map_map. reflexivity. }
+  destruct (join_epoch_common c (c3_of (c1_of c x)) ms i m y [EvJoinDone (S (c_gen c))] Hinv G L Hp Ha) as (Hpw & HK & Hnm').
+  { unfold c3_of, c1_of. cbn [c_ents]. apply ids_clear_jp. }
+  fold x g in Hpw, HK, Hnm'.
+  apply epoch_general; try assumption.
+  - unfold c3_of. apply wfc_complete; [exact Htbl | apply ents1_nonempty | exact Hsp].
+  - intros m0 H0. assert (Eg : g m0 = bcast [EvJoinDone (S (c_gen (c1_of c x)))] (if m_name m0 =? i then F m0 else m0)) by reflexivity.
+    rewrite Eg. apply Hall3. unfold updm. apply in_map_iff. exists m0. split; [reflexivity | exact H0].
+  - rewrite Emap. rewrite Emap in HK. unfold trig. cbn [s_c s_ms].
+    assert (S1 : sum (map (tw (c1_of c x)) (updm i F ms)) <= sum (map (tw c) ms)).
+    { unfold updm. rewrite map_map. apply sum_map_le. intros m0 H0. apply (Hm1 m0 H0). }
+    assert (E1 : erank (c3_of (c1_of c x)) = 1) by reflexivity. assert (E2 : erank c = 2) by (unfold erank; rewrite Hst; reflexivity). lia.
+Qed.
+
+(* ---- the leader's SyncGroup in CompletingRebalance ---- *)
+Lemma case_sync_leader : forall c ms i m, inv_facts c ms -> getm i ms = Some m -> m_live m = true ->
+  m_ph m = PJoined -> m_inbox m = None -> ck_known (m_ck m) = true -> ck_stale (m_ck m) = false ->
+  c_st c = CCompleting -> validate c (m_id m) (m_gen m) = 0%Z ->
+  let c' := mkC (c_gen c) CStable (clear_sp (c_ents c)) (c_pend c) (c_leader c) in
+  let g := fun m0 => bcast [EvSyncDone] (if m_name m0 =? i then sync_park m0 else m0) in
+  inv_facts c' (map g ms) /\ mu (mkS c' (map g ms)) < mu (mkS c ms).
+Proof.
+  intros c ms i m Hinv G L Hp Hib Hk Hns Hst Hv c' g. get_facts Hinv G. pose proof (wf_c_parts c Hwc) as W.
+  assert (HT : forall m1, absm c' (bcast [EvSyncDone] m1) = T_syncdone (absm c m1)) by (intros m1; apply absm_T_syncdone; reflexivity).
+  assert (Hm : forall m0, In m0 ms -> wf_m c' (g m0) = true /\ coh c' (g m0) = true /\ tw c' (g m0) <= tw c m0).
+  { intros m0 H0. unfold g. destruct (Nat.eqb_spec (m_name m0) i) as [E|E].
+    - rewrite (getm_unique i ms m (iv_names _ _ Hinv) G m0 H0 E).
+      assert (P : fin_of pre_sendsync (absm c m) = true).
+      { unfold fin_of, pre_sendsync. fold (fin_of pre_wf (absm c m)). rewrite (wf_pre_m _ _ L Hwm). unfold absm, ib_of. pcbn. rewrite Hp, Hib, Hk. reflexivity. }
+      pose proof (use_check pre_sendsync chk_sync_leader c m ok_sync_leader Hwc L Hwm P) as H.
+      unfold chk_sync_leader in H. rewrite Hia in H.
+      assert (E1 : cstate_eqb (a_st (absm c m)) CCompleting = true) by (unfold absm; pcbn; rewrite Hst; reflexivity).
+      assert (E2 : ck_stale (a_ck (absm c m)) = false) by exact Hns.
+      assert (E3 : (validate_a (a_idz (absm c m)) (a_id_e (absm c m)) (a_gen_eq (absm c m)) =? 0)%Z = true).
+      { unfold validate in Hv. unfold validate_a, absm. pcbn. rewrite Hv. reflexivity. }
+      rewrite E1, E2, E3 in H. cbn [negb andb orb] in H.
+      assert (EA : absm c (sync_park m) = a_send_sync INone (a_id_sp (absm c m)) (absm c m)).
+      { unfold absm, a_send_sync, sync_park, focus_of, rgen_of, ib_of. pcbn. rewrite Hp, Hib. reflexivity. }
+      rewrite <- EA, <- HT in H. destruct (keeps_parts _ _ H) as (_ & A & B & C). repeat split; assumption.
+    - destruct (m_live m0) eqn:L0.
+      + pose proof (use_check pre_any chk_T_syncdone c m0 ok_T_syncdone Hwc L0 (iv_wfm _ _ Hinv m0 H0) (wf_pre_m _ _ L0 (iv_wfm _ _ Hinv m0 H0))) as H.
+        unfold chk_T_syncdone in H. rewrite (inv_a_of c ms m0 Hinv H0) in H.
+        assert (E1 : cstate_eqb (a_st (absm c m0)) CCompleting = true) by (unfold absm; pcbn; rewrite Hst; reflexivity).
+        rewrite E1 in H. cbn [negb andb orb] in H. rewrite <- HT in H. destruct (keeps_parts _ _ H) as (_ & A & B & C). repeat split; assumption.
+      + destruct (bcast_dead [EvSyncDone] c' m0 L0) as (A & B & T). rewrite T. repeat split; try assumption. lia. }
+  assert (Eg : map g ms = map (bcast [EvSyncDone]) (updm i sync_park ms)) by (unfold updm; rewrite map_map; reflexivity).
+  apply epoch_general; try assumption.
+  - intros m0. unfold g. destruct (bcast_fields [EvSyncDone] (if m_name m0 =? i then sync_park m0 else m0)) as (_ & _ & _ & _ & N & _). rewrite N.
+    destruct (m_name m0 =? i); reflexivity.
+  - apply wfc_syncdone; assumption.
+  - intros m0 H0. destruct (Hm m0 H0) as (A & B & _). auto.
+  - rewrite Eg. rewrite (pairwise_map_same (bcast [EvSyncDone])); [|apply bcast_same].
+    apply (disj_updm c ms i m sync_park Hinv G L (fun _ => eq_refl)).
+    intros z [Hz Hh]. left. split; [exact Hz|]. left. destruct Hh as [Hh|Hh]; [exact Hh | unfold focus_of, sync_park in Hh; cbn in Hh; congruence].
+  - assert (HK : count_orphans (mkS c' (map g ms)) <= count_orphans (mkS c ms)).
+    { apply (orphans_mono c c' ms g []); [unfold c'; cbn [c_ents]; rewrite ids_clear_sp, app_nil_r; reflexivity | intros z [] |].
+      intros m0 z H0 B. unfold g. rewrite bcast_bound. destruct (Nat.eqb_spec (m_name m0) i) as [E|E]; [|exact B].
+      rewrite (getm_unique i ms m (iv_names _ _ Hinv) G m0 H0 E) in *.
+      unfold bound in *. unfold sync_park. pcbn. rewrite Hp in B. cbn [ph_eqb andb orb] in *. rewrite orb_false_r in *. exact B. }
+    assert (S1 : sum (map (tw c') (map g ms)) <= sum (map (tw c) ms)) by (rewrite map_map; apply sum_map_le; intros m0 H0; apply (Hm m0 H0)).
+    unfold trig. cbn [s_c s_ms]. assert (E1 : erank c' = 0) by reflexivity. assert (E2 : erank c = 1) by (unfold erank; rewrite Hst; reflexivity). lia.
+Qed.
+
+(* ---- an orphan id leaves the table ---- *)
+Definition drop (x : nat) (es : list entry) : list entry := filter (fun e => negb (e_id e =? x)) es.
+Lemma memb_drop : forall x z es, memb z (ids (drop x es)) = memb z (ids es) && negb (z =? x).
+Proof.
+  intros x z es. induction es as [|e r IH]; [reflexivity|]. unfold drop, memb, ids in *. cbn [filter map existsb].
+  destruct (Nat.eqb_spec (e_id e) x) as [E|E]; cbn [negb].
+  - rewrite IH. destruct (Nat.eqb_spec z (e_id e)) as [E2|E2]; [|reflexivity]. rewrite E2, E, Nat.eqb_refl. cbn. rewrite andb_false_r. reflexivity.
+  - cbn [map existsb]. rewrite IH. destruct (Nat.eqb_spec z (e_id e)) as [E2|E2]; [|reflexivity]. subst z.
+    destruct (Nat.eqb_spec (e_id e) x); [contradiction|]. reflexivity.
+Qed.
+Lemma flag_drop : forall (fl : entry -> bool) x z es, z <> x -> flag_of fl z (drop x es) = flag_of fl z es.
+Proof.
+  intros fl x z es Hz. unfold flag_of, find_ent, drop. induction es as [|e r IH]; [reflexivity|]. cbn [filter find].
+  destruct (Nat.eqb_spec (e_id e) x) as [E|E]; cbn [negb].
+  - destruct (Nat.eqb_spec (e_id e) z); [congruence | exact IH].
+  - cbn [find]. destruct (e_id e =? z); [reflexivity | exact IH].
+Qed.
+Lemma nodupb_filter : forall (p : nat -> bool) l, nodupb l = true -> nodupb (filter p l) = true.
+Proof. intros p l H. apply nodupb_NoDup. apply NoDup_filter. apply nodupb_NoDup. exact H. Qed.
+Lemma ids_drop : forall x es, ids (drop x es) = filter (fun y => negb (y =? x)) (ids es).
+Proof. intros x es. unfold drop, ids. induction es as [|e r IH]; [reflexivity|]. cbn [filter map]. destruct (negb (e_id e =? x)); cbn [map]; rewrite IH; reflexivity. Qed.
+Lemma tbl_drop : forall es pend x, tbl_ok es pend -> tbl_ok (drop x es) pend.
+Proof.
+  intros es pend x (T1 & T2 & T3 & T4). unfold tbl_ok. repeat split.
+  - rewrite ids_drop. apply nodupb_filter. exact T1.
+  - rewrite memb_drop, T2. reflexivity.
+  - exact T3.
+  - rewrite forallb_forall in T4 |- *. intros p Hp. specialize (T4 p Hp). apply negb_true_iff in T4. rewrite memb_drop, T4. reflexivity.
+Qed.
+Lemma forallb_drop : forall (p : entry -> bool) x es, forallb p es = true -> forallb p (drop x es) = true.
+Proof. intros p x es H. rewrite forallb_forall in H |- *. intros e He. unfold drop in He. apply filter_In in He. apply H. apply He. Qed.
+
+Lemma count_drop : forall (P : nat -> bool) x l, In x l -> P x = true ->
+  length (filter P (filter (fun y => negb (y =? x)) l)) + 1 <= length (filter P l).
+Proof.
+  intros P x l. induction l as [|a r IH]; intros Hin Hp; [inversion Hin|]. cbn [filter].
+  destruct (Nat.eqb_spec a x) as [E|E]; cbn [negb].
+  - subst a. rewrite Hp. cbn [length].
+    assert (length (filter P (filter (fun y => negb (y =? x)) r)) <= length (filter P r)); [|lia].
+    clear. induction r as [|b r IH]; [reflexivity|]. cbn [filter]. destruct (negb (b =? x)); cbn [filter]; destruct (P b); cbn [length]; lia.
+  - cbn [filter]. destruct Hin as [Hin|Hin]; [congruence|]. specialize (IH Hin Hp). destruct (P a); cbn [length]; lia.
+Qed.
+
+Definition c1x (c : coord) (x : nat) : coord :=
+  mkC (c_gen c) (c_st c) (drop x (c_ents c)) (c_pend c) (if c_leader c =? x then 0 else c_leader c).
+
+Lemma c1x_frame : forall c x m0, wf_c c = true -> x <> 0 -> (forall z, has_id m0 z -> z <> x) -> absm (c1x c x) m0 = absm c m0.
+Proof.
+  intros c x m0 Hc Hx Hn. pose proof (wf_c_zfacts c Hc) as (Z1 & Z2 & Z3 & Z4).
+  apply absm_frame; try reflexivity; [repeat split; assumption | |].
+  - unfold zfacts, c1x, ent_jp, ent_sp. cbn [c_ents c_pend].
+    fold (flag_of e_jp 0 (drop x (c_ents c))) (flag_of e_sp 0 (drop x (c_ents c))).
+    rewrite memb_drop, Z1, !flag_drop by congruence. repeat split; assumption.
+  - intros z Hz. specialize (Hn z Hz). unfold c1x, ent_jp, ent_sp. cbn [c_ents c_pend].
+    fold (flag_of e_jp z (drop x (c_ents c))) (flag_of e_sp z (drop x (c_ents c))).
+    rewrite memb_drop, !flag_drop by assumption. destruct (Nat.eqb_spec z x); [contradiction|]. rewrite andb_true_r. repeat split; reflexivity.
+Qed.
+
+Lemma orphan_not_has : forall ms e m0, orphan ms e = true -> In m0 ms -> m_live m0 = true -> e_id e <> 0 ->
+  forall z, has_id m0 z -> z <> e_id e.
+Proof.
+  intros ms e m0 Ho H0 L0 Hx z Hz E. subst z. unfold orphan in Ho. apply negb_true_iff in Ho.
+  assert (existsb (fun m1 => bound m1 (e_id e)) ms = true); [|congruence].
+  apply existsb_exists. exists m0. split; [exact H0|]. apply bound_has_id; [exact Hx | split; assumption].
+Qed.
+
+Lemma expire_orphans : forall c c' ms x evs, In x (ids (c_ents c)) -> orph ms x = true ->
+  ids (c_ents c') = ids (drop x (c_ents c)) ->
+  count_orphans (mkS c' (map (bcast evs) ms)) + 1 <= count_orphans (mkS c ms).
+Proof.
+  intros c c' ms x evs Hin Ho Hids. rewrite !count_orphans_ids. cbn [s_c s_ms]. rewrite Hids, ids_drop.
+  assert (E : forall z, orph (map (bcast evs) ms) z = orph ms z).
+  { intros z. unfold orph. f_equal. clear Ho. induction ms as [|a r IH]; [reflexivity|]. cbn [map existsb]. rewrite bcast_bound, IH. reflexivity. }
+  rewrite (filter_ext _ _ E). apply count_drop; assumption.
+Qed.
+
+Lemma absm_T_empty : forall c c' m0 (bump : bool), zfacts c ->
+  c_st c' = CEmpty -> c_ents c' = [] -> c_pend c' = c_pend c -> c_gen c' = (if bump then S (c_gen c) else c_gen c) ->
+  memb (m_id m0) (ids (c_ents c)) = false -> memb (focus_of m0) (ids (c_ents c)) = false ->
+  m_gen m0 <= c_gen c -> rgen_of m0 <= c_gen c ->
+  absm c' m0 = T_empty bump (absm c m0).
+Proof.
+  intros c c' m0 bump (Z1 & Z2 & Z3 & Z4) Hst He Hp Hg Hi Hf Hgen Hrg.
+  unfold absm, T_empty, ent_jp, ent_sp. pcbn. rewrite Hst, He, Hp, Hg, Hi, Hf. cbn [ids map memb existsb find_ent find].
+  rewrite (find_ent_none _ _ Hi), (find_ent_none _ _ Hf).
+  destruct bump.
+  - assert (G1 : (m_gen m0 =? S (c_gen c)) = false) by (apply Nat.eqb_neq; lia).
+    assert (G2 : (m_gen m0 <=? S (c_gen c)) = true) by (apply Nat.leb_le; lia).
+    assert (R1 : (rgen_of m0 =? S (c_gen c)) = false) by (apply Nat.eqb_neq; lia).
+    assert (R2 : (rgen_of m0 <=? S (c_gen c)) = true) by (apply Nat.leb_le; lia).
+    rewrite G1, G2, R1, R2. reflexivity.
+  - reflexivity.
+Qed.
+
+Section Expire.
+  Variables (c : coord) (ms : list member) (x : nat) (e : entry).
+  Hypothesis Hinv : inv_facts c ms.
+  Hypothesis Hfind : find_ent x (c_ents c) = Some e.
+  Hypothesis Horph : orphan ms e = true.
+
+  Let Hwc := iv_wfc _ _ Hinv.
+  Lemma exp_x : e_id e = x /\ In x (ids (c_ents c)) /\ x <> 0 /\ orph ms x = true.
+  Proof.
+    pose proof (find_ent_id _ _ _ Hfind) as Ei. assert (Hin : In x (ids (c_ents c))).
+    { unfold find_ent in Hfind. apply find_some in Hfind. destruct Hfind as [H _]. rewrite <- Ei. apply in_map. exact H. }
+    repeat split; try assumption.
+    - intros E. rewrite E in Hin. apply memb_In in Hin. rewrite (wc_0e c (wf_c_parts c Hwc)) in Hin. discriminate.
+    - unfold orphan in Horph. rewrite Ei in Horph. exact Horph.
+  Qed.
+
+  Lemma exp_no_x : forall m0, In m0 ms -> m_live m0 = true -> forall z, has_id m0 z -> z <> x.
+  Proof.
+    intros m0 H0 L0 z Hz. destruct exp_x as (Ei & _ & Hx & _). rewrite <- Ei. apply (orphan_not_has ms e m0 Horph H0 L0); [rewrite Ei; exact Hx | exact Hz].
+  Qed.
+
+  (* every member against the table without x *)
+  Lemma exp_members1 : forall m0, In m0 ms -> wf_m (c1x c x) m0 = true /\ coh (c1x c x) m0 = true /\ tw (c1x c x) m0 = tw c m0.
+  Proof.
+    intros m0 H0. destruct exp_x as (_ & _ & Hx & _). destruct (m_live m0) eqn:L0.
+    - unfold wf_m, coh, tw. rewrite (c1x_frame c x m0 Hwc Hx (exp_no_x m0 H0 L0)).
+      repeat split; [apply (iv_wfm _ _ Hinv m0 H0) | apply (iv_coh _ _ Hinv m0 H0)].
+    - destruct (dead_trivial (c1x c x) m0 L0) as (A & B & T & _). destruct (dead_trivial c m0 L0) as (_ & _ & T' & _). rewrite T, T'. auto.
+  Qed.
+
+  (* ... to an empty table *)
+  Lemma case_expire_empty : forall rt, drop x (c_ents c) = [] ->
+    let c' := mkC (if rt || cstate_eqb (c_st c) CEmpty then c_gen c else S (c_gen c)) CEmpty [] (c_pend c) (if c_leader c =? x then 0 else c_leader c) in
+    inv_facts c' (map (bcast []) ms) /\ mu (mkS c' (map (bcast []) ms)) < mu (mkS c ms).
+  Proof.
+    intros rt Hd c'. destruct exp_x as (Ei & Hin & Hx & Ho). pose proof (wf_c_parts c Hwc) as W.
+    assert (Hall : forall z, memb z (ids (c_ents c)) = true -> z = x).
+    { intros z Hz. destruct (Nat.eq_dec z x) as [E|E]; [exact E|]. exfalso.
+      assert (memb z (ids (drop x (c_ents c))) = true) by (rewrite memb_drop, Hz; destruct (Nat.eqb_spec z x); [contradiction | reflexivity]).
+      rewrite Hd in H. discriminate. }
+    assert (Hm : forall m0, In m0 ms -> wf_m c' (bcast [] m0) = true /\ coh c' (bcast [] m0) = true /\ tw c' (bcast [] m0) <= tw c m0).
+    { intros m0 H0. change (bcast [] m0) with m0. destruct (m_live m0) eqn:L0.
+      - assert (Hi : memb (m_id m0) (ids (c_ents c)) = false).
+        { destruct (memb (m_id m0) (ids (c_ents c))) eqn:E; [|reflexivity]. exfalso. apply (exp_no_x m0 H0 L0 (m_id m0)).
+          - split; [|left; reflexivity]. intros Ez. rewrite Ez, (wc_0e c W) in E. discriminate.
+          - apply Hall. exact E. }
+        assert (Hf : memb (focus_of m0) (ids (c_ents c)) = false).
+        { destruct (memb (focus_of m0) (ids (c_ents c))) eqn:E; [|reflexivity]. exfalso. apply (exp_no_x m0 H0 L0 (focus_of m0)).
+          - split; [|right; reflexivity]. intros Ez. rewrite Ez, (wc_0e c W) in E. discriminate.
+          - apply Hall. exact E. }
+        pose proof (iv_wfm _ _ Hinv m0 H0) as Wm. pose proof (iv_coh _ _ Hinv m0 H0) as Cm.
+        set (bump := negb (rt || cstate_eqb (c_st c) CEmpty)).
+        assert (EA : absm c' m0 = T_empty bump (absm c m0)).
+        { assert (Hg : c_gen c' = (if bump then S (c_gen c) else c_gen c)).
+          { unfold c', bump. cbn [c_gen]. destruct (rt || cstate_eqb (c_st c) CEmpty); reflexivity. }
+          exact (absm_T_empty c c' m0 bump (wf_c_zfacts c Hwc) eq_refl eq_refl eq_refl Hg Hi Hf (gen_le_of c m0 L0 Cm) (rgen_le_of c m0 L0 Wm Cm)). }
+        pose proof (use_check pre_any chk_T_empty c m0 ok_T_empty Hwc L0 Wm (wf_pre_m _ _ L0 Wm)) as H.
+        unfold chk_T_empty in H. rewrite (inv_a_of c ms m0 Hinv H0) in H.
+        assert (E1 : a_id_e (absm c m0) = false) by exact Hi. assert (E2 : a_f_e (absm c m0) = false) by exact Hf.
+        rewrite E1, E2 in H. cbn [negb andb orb] in H. apply andb_true_iff in H. destruct H as [Ht Hf'].
+        assert (K : keeps (absm c m0) (T_empty bump (absm c m0)) = true) by (destruct bump; assumption).
+        rewrite <- EA in K. destruct (keeps_parts _ _ K) as (_ & A & B & C). repeat split; assumption.
+      - destruct (dead_trivial c' m0 L0) as (A & B & T & _). rewrite T. repeat split; try assumption. lia. }
+    apply epoch_general; try assumption.
+    - intros m0. reflexivity.
+    - apply wf_c_of_parts. constructor; unfold c'; cbn [c_gen c_st c_ents c_pend c_leader ids map nodupb memb existsb cstate_eqb negb orb hd_error is_none forallb];
+        try reflexivity; try exact (wc_0p c W).
+      apply forallb_forall. intros; reflexivity.
+    - intros m0 H0. destruct (Hm m0 H0) as (A & B & _). auto.
+    - rewrite (pairwise_map_same (bcast [])); [exact (iv_disj _ _ Hinv) | intros; repeat split; reflexivity].
+    - assert (HK : count_orphans (mkS c' (map (bcast []) ms)) + 1 <= count_orphans (mkS c ms)).
+      { apply (expire_orphans c c' ms x []); [exact Hin | exact Ho | unfold c'; cbn [c_ents]; rewrite Hd; reflexivity]. }
+      assert (S1 : sum (map (tw c') (map (bcast []) ms)) <= sum (map (tw c) ms)) by (rewrite map_map; apply sum_map_le; intros m0 H0; apply (Hm m0 H0)).
+      unfold trig. cbn [s_c s_ms]. assert (E1 : erank c' = 0) by reflexivity. lia.
+  Qed.
+End Expire.
+
+Lemma drop_nonempty_notjoined : forall es x, forallb (fun e => negb (e_jp e)) es = true -> drop x es <> [] -> all_joined (drop x es) = false.
+Proof.
+  intros es x H Hne. destruct (drop x es) as [|e r] eqn:E; [congruence|]. unfold all_joined. cbn [forallb].
+  assert (Hin : In e (drop x es)) by (rewrite E; left; reflexivity). unfold drop in Hin. apply filter_In in Hin. destruct Hin as [Hin _].
+  rewrite forallb_forall in H. specialize (H e Hin). apply negb_true_iff in H. rewrite H. reflexivity.
+Qed.
+
+(* ... from Stable / CompletingRebalance: a rebalance starts *)
+Lemma case_expire_prepare : forall c ms x e, inv_facts c ms -> find_ent x (c_ents c) = Some e -> orphan ms e = true ->
+  (c_st c = CStable \/ c_st c = CCompleting) -> drop x (c_ents c) <> [] ->
+  let c' := mkC (c_gen c) CPreparing (clear_sp (drop x (c_ents c))) (c_pend c) (if c_leader c =? x then 0 else c_leader c) in
+  inv_facts c' (map (bcast [EvPrepare]) ms) /\ mu (mkS c' (map (bcast [EvPrepare]) ms)) < mu (mkS c ms).
+Proof.
+  intros c ms x e Hinv Hfind Horph Hst Hne c'. pose proof (iv_wfc _ _ Hinv) as Hwc. pose proof (wf_c_parts c Hwc) as W.
+  destruct (exp_x c ms x e Hinv Hfind Horph) as (Ei & Hin & Hx & Ho).
+  assert (Hnp : c_st c <> CPreparing) by (destruct Hst as [E|E]; rewrite E; discriminate).
+  assert (Hjp : forallb (fun e0 => negb (e_jp e0)) (c_ents c) = true).
+  { pose proof (wc_jp c W) as H. destruct Hst as [E|E]; rewrite E in H; exact H. }
+  assert (Hm : forall m0, In m0 ms -> wf_m c' (bcast [EvPrepare] m0) = true /\ coh c' (bcast [EvPrepare] m0) = true /\ tw c' (bcast [EvPrepare] m0) <= tw c m0).
+  { intros m0 H0. destruct (m_live m0) eqn:L0.
+    - assert (EA : absm c' (bcast [EvPrepare] m0) = T_prep (absm c m0)).
+      { rewrite (absm_T_prep (c1x c x) c' m0); try reflexivity. f_equal. apply (c1x_frame c x m0 Hwc Hx (exp_no_x c ms x e Hinv Hfind Horph m0 H0 L0)). }
+      destruct (member_prepare c c' m0 Hwc Hnp L0 (iv_wfm _ _ Hinv m0 H0) (iv_coh _ _ Hinv m0 H0) EA) as (_ & A & B & C). auto.
+    - destruct (bcast_dead [EvPrepare] c' m0 L0) as (A & B & T). rewrite T. repeat split; try assumption. lia. }
+  apply epoch_general; try assumption.
+  - intros m0. destruct (bcast_fields [EvPrepare] m0) as (_ & _ & _ & _ & N & _). exact N.
+  - unfold c'. apply wfc_prepare; [apply tbl_drop; apply tbl_of_wf; exact W | exact Hne | apply drop_nonempty_notjoined; assumption].
+  - intros m0 H0. destruct (Hm m0 H0) as (A & B & _). auto.
+  - rewrite (pairwise_map_same (bcast [EvPrepare])); [exact (iv_disj _ _ Hinv) | apply bcast_same].
+  - assert (HK : count_orphans (mkS c' (map (bcast [EvPrepare]) ms)) + 1 <= count_orphans (mkS c ms)).
+    { apply (expire_orphans c c' ms x [EvPrepare]); [exact Hin | exact Ho | unfold c'; cbn [c_ents]; apply ids_clear_sp]. }
+    assert (S1 : sum (map (tw c') (map (bcast [EvPrepare]) ms)) <= sum (map (tw c) ms)) by (rewrite map_map; apply sum_map_le; intros m0 H0; apply (Hm m0 H0)).
+    unfold trig. cbn [s_c s_ms]. assert (E1 : erank c' = 2) by reflexivity. pose proof (erank_le2 c). lia.
+Qed.
+
+(* ... in PreparingRebalance, others still missing *)
+Lemma case_expire_waiting : forall c ms x e, inv_facts c ms -> find_ent x (c_ents c) = Some e -> orphan ms e = true ->
+  c_st c = CPreparing -> drop x (c_ents c) <> [] -> all_joined (drop x (c_ents c)) = false ->
+  inv_facts (c1x c x) (map (bcast []) ms) /\ mu (mkS (c1x c x) (map (bcast []) ms)) < mu (mkS c ms).
+Proof.
+  intros c ms x e Hinv Hfind Horph Hst Hne Hnj. pose proof (iv_wfc _ _ Hinv) as Hwc. pose proof (wf_c_parts c Hwc) as W.
+  destruct (exp_x c ms x e Hinv Hfind Horph) as (Ei & Hin & Hx & Ho).
+  pose proof (wc_sp c W) as Hsp. rewrite Hst in Hsp. cbn [cstate_eqb orb] in Hsp.
+  apply epoch_general; try assumption.
+  - intros m0. reflexivity.
+  - destruct (tbl_drop (c_ents c) (c_pend c) x (tbl_of_wf c W)) as (T1 & T2 & T3 & T4).
+    apply wf_c_of_parts. constructor; unfold c1x; cbn [c_gen c_st c_ents c_pend c_leader]; rewrite ?Hst; cbn [cstate_eqb negb orb]; try assumption; try reflexivity.
+    + destruct (drop x (c_ents c)); [congruence | reflexivity].
+    + apply forallb_drop. exact Hsp.
+    + rewrite Hnj. reflexivity.
+    + unfold ent_sp. cbn [c_ents]. apply (find_ent_flag e_sp). apply forallb_drop. exact Hsp.
+  - intros m0 H0. change (bcast [] m0) with m0. destruct (exp_members1 c ms x e Hinv Hfind Horph m0 H0) as (A & B & _). auto.
+  - rewrite (pairwise_map_same (bcast [])); [exact (iv_disj _ _ Hinv) | intros; repeat split; reflexivity].
+  - assert (HK : count_orphans (mkS (c1x c x) (map (bcast []) ms)) + 1 <= count_orphans (mkS c ms)).
+    { apply (expire_orphans c (c1x c x) ms x []); [exact Hin | exact Ho | reflexivity]. }
+    assert (S1 : sum (map (tw (c1x c x)) (map (bcast []) ms)) <= sum (map (tw c) ms)).
+    { rewrite map_map. apply sum_map_le. intros m0 H0. change (bcast [] m0) with m0. destruct (exp_members1 c ms x e Hinv Hfind Horph m0 H0) as (_ & _ & T). lia. }
+    unfold trig. cbn [s_c s_ms]. assert (E1 : erank (c1x c x) = erank c) by reflexivity. lia.
+Qed.
+
+(* ... in PreparingRebalance, it was the last one missing: _complete_join *)
+Lemma case_expire_complete : forall c ms x e, inv_facts c ms -> find_ent x (c_ents c) = Some e -> orphan ms e = true ->
+  c_st c = CPreparing -> drop x (c_ents c) <> [] -> all_joined (drop x (c_ents c)) = true ->
+  let g := bcast [EvJoinDone (S (c_gen c))] in
+  inv_facts (c3_of (c1x c x)) (map g ms) /\ mu (mkS (c3_of (c1x c x)) (map g ms)) < mu (mkS c ms).
+Proof.
+  intros c ms x e Hinv Hfind Horph Hst Hne Haj g. pose proof (iv_wfc _ _ Hinv) as Hwc. pose proof (wf_c_parts c Hwc) as W.
+  destruct (exp_x c ms x e Hinv Hfind Horph) as (Ei & Hin & Hx & Ho).
+  pose proof (wc_sp c W) as Hsp. rewrite Hst in Hsp. cbn [cstate_eqb orb] in Hsp.
+  pose proof (tbl_drop (c_ents c) (c_pend c) x (tbl_of_wf c W)) as Htbl.
+  assert (W1 : wf_cw (c1x c x)) by (unfold c1x; rewrite Hst; apply wcw_preparing; [exact Htbl | apply forallb_drop; exact Hsp]).
+  destruct (all_barrier (c1x c x) (c3_of (c1x c x)) ms W1 Hst Haj eq_refl eq_refl eq_refl eq_refl) as [Hall3 Hsum3].
+  { intros mP HP. destruct (exp_members1 c ms x e Hinv Hfind Horph mP HP) as (A & B & _). auto. }
+  apply epoch_general; [exact Hinv | | | | |].
+  - intros m0. unfold g. destruct (bcast_fields [EvJoinDone (S (c_gen c))] m0) as (_ & _ & _ & _ & N & _). exact N.
+  - unfold c3_of. apply wfc_complete; [exact Htbl | exact Hne | apply forallb_drop; exact Hsp].
+  - exact Hall3.
+  - unfold g. rewrite (pairwise_map_same (bcast [EvJoinDone (S (c_gen c))])); [exact (iv_disj _ _ Hinv) | apply bcast_same].
+  - assert (HK : count_orphans (mkS (c3_of (c1x c x)) (map g ms)) + 1 <= count_orphans (mkS c ms)).
+    { apply (expire_orphans c (c3_of (c1x c x)) ms x [EvJoinDone (S (c_gen c))]); [exact Hin | exact Ho | unfold c3_of, c1x; cbn [c_ents]; apply ids_clear_jp]. }
+    assert (S1 : sum (map (tw (c1x c x)) ms) <= sum (map (tw c) ms)).
+    { apply sum_map_le. intros m0 H0. destruct (exp_members1 c ms x e Hinv Hfind Horph m0 H0) as (_ & _ & T). lia. }
+    unfold trig. cbn [s_c s_ms]. assert (E1 : erank (c3_of (c1x c x)) = 1) by reflexivity. change (c_gen (c1x c x)) with (c_gen c) in Hsum3. fold g in Hsum3. lia.
+Qed.
